@@ -196,4 +196,19 @@ brk("C14", "c14-region-copy-loses-animation", MODEL, "    dest.set_begin(self.ge
 ben("C14", "c14-benign-fresh-mutation", ISD, "    new_element = type(element)(new_doc)\n    element.copy_to(new_element)", "    new_element = type(element)(new_doc)\n    element.copy_to(new_element)\n    new_element.set_lang(element.get_lang())")
 ben("C14", "c14-benign-anim-precise", ISD, "    for _anim_step in region.iter_animation_steps():\n      return True\n", "    if len(list(region.iter_animation_steps())) > 0:\n      return True\n")
 
+
+# ---------------------------------------------------------------------------------------- benign variants for the shape rules
+ben("C10", "c10-benign-br-guard-form", SRTR, "      if i > 0:\n        self.parent.push_child(model.Br(self.parent.get_doc()))", "      if i >= 1:\n        self.parent.push_child(model.Br(self.parent.get_doc()))")
+ben("C10", "c10-benign-doc-local", SRTR, "    span = model.Span(self.parent.get_doc())\n    self.parent.push_child(span)\n    self.parent = span\n\n    if tag.lower() in (\"b\", \"bold\"):", "    doc = self.parent.get_doc()\n    span = model.Span(doc)\n    self.parent.push_child(span)\n    self.parent = span\n\n    if tag.lower() in (\"b\", \"bold\"):")
+ben("C10", "c10-benign-time-fraction", SRTR, "        int(m.group('end_h')) * 3600 + \n        int(m.group('end_m')) * 60 + \n        int(m.group('end_s')) +", "        Fraction(int(m.group('end_h')) * 3600) + \n        60 * int(m.group('end_m')) + \n        int(m.group('end_s')) +")
+ben("C11", "c11-benign-region-loop", VTTR, "    if r.get_style(styles.StyleProperties.DisplayAlign) != display_align:\n      continue\n\n    found_region = r\n    break", "    if not r.get_style(styles.StyleProperties.DisplayAlign) == display_align:\n      continue\n\n    found_region = r\n    break")
+ben("C11", "c11-benign-align-block-comment", VTTR, "  # text align\n\n  value = cue_settings.get(\"align\")", "  # text alignment of the cue\n\n  value = cue_settings.get(\"align\")")
+ben("C12", "c12-benign-total-ms", TC, "    seconds = round(seconds, 3)\n\n    h = floor(seconds / 3600)\n    m = floor(seconds / 60 % 60)\n    s = floor(seconds % 60)\n    ms = round((seconds % 1) * 1000)\n", "    total_ms = round(seconds * 1000)\n\n    h = total_ms // 3600000\n    m = total_ms // 60000 % 60\n    s = total_ms // 1000 % 60\n    ms = total_ms % 1000\n")
+ben("C16", "c16-benign-none-default", LCD, "          region.get_begin() or 0,", "          region.get_begin() if region.get_begin() is not None else 0,")
+ben("C15", "c15-benign-detach-setter", MODEL, "      if doc is None:\n        e._region = None\n      e._doc = doc", "      e._doc = doc\n      if doc is None:\n        e._region = None")
+ben("C06", "c06-benign-extend", "ttconv/filters/isd/merge_paragraphs.py", "        paragraphs = paragraphs + self._get_paragraphs(child)", "        paragraphs.extend(self._get_paragraphs(child))")
+ben("C09", "c09-benign-reset-first", DF, "    if tti.EBN != 0xFF:\n      self.is_in_extension = True\n      return\n\n    self.is_in_extension = False\n", "    self.is_in_extension = tti.EBN != 0xFF\n    if self.is_in_extension:\n      return\n")
+brk("C16", "c16-safe-area-falsy", LCD, "          x=LengthType(self.config.safe_area, LengthType.Units.pct),", "          x=LengthType(self.config.safe_area or 10, LengthType.Units.pct),", "LINT-h")
+brk("C11", "c11-size-before-vertical", VTTR, "  # writing direction\n\n  value = cue_settings.get(\"vertical\")\n  if value == \"lr\":\n    writing_mode = styles.WritingModeType.tblr\n  elif value == \"rl\":\n    writing_mode = styles.WritingModeType.tbrl\n  elif value is not None:\n    LOGGER.warning(\"Bad vertical setting value: %s\", value)\n\n\n  # size\n", "  # size\n", None, "vertical no longer parsed")
+
 VARIANTS = V
